@@ -886,7 +886,7 @@ func (h *hist) stepQuery(sess int) {
 
 func main() {
 	r := core.NewRun("C11", "exploration",
-		"one case = one history (25-60 steps, 1-3 sessions, optional explicit transactions) mixing simple keyed DML, DDL (add/drop column, index, drop+recreate of a referenced table, truncate, replace view), effectful procedure calls and trigger-firing inserts with re-executions of 4-6 fixed query objects through text, PREPARE/EXECUTE and QueryWithBindings; at each query step a full scan of every table must equal the harness's reference model and the query result must equal the same query on a fresh engine rebuilt from the DDL log and the model rows; distinct = (query object, execution mode, result class, kind of the last change, sessions, in-transaction)")
+		"one case = one history (25-60 steps, 1-3 sessions, optional explicit transactions) mixing simple keyed DML, DDL (add/drop column, index, drop+recreate of a referenced table, truncate, replace view), effectful procedure calls and trigger-firing inserts with re-executions of 4-6 fixed query objects through text, PREPARE/EXECUTE and QueryWithBindings; at each query step a full scan of every table must equal the harness's reference model and the query result must equal the same query on a fresh engine rebuilt from the DDL log and the model rows; distinct = (query object, execution mode, result class, kind of the last change, sessions, in-transaction); a trigger case = one BEFORE/AFTER INSERT row trigger whose body tests a subquery over a table the body itself changes, fired for 3-12 rows by one or two multi-row INSERTs, final tables compared with a row-by-row Go twin")
 	r.Fold(8, 3)
 	r.Assume("only one explicit transaction is open at a time and no other session writes while it is open (isolation between overlapping writers is C17's subject and documented as unsupported by the memory backend)")
 	r.Assume("multi-row inserts are not issued against the table that carries the subquery trigger; trigger and procedure effects are predicted by hand-written Go twins")
@@ -897,6 +897,7 @@ func main() {
 	r.Parallel("hist", n, func(i int) { runHist(r, i) })
 	nw := r.N(60, 900)
 	r.Parallel("wire", nw, func(i int) { runWire(r, i) })
+	trigBattery(r)
 	pinned(r)
 	c1 := verifhook.Counters()
 	for _, c := range []string{"rowexec.cachedresults.hit", "rowexec.cachedresults.fill", "plan.subquery.cache.hit", "plan.subquery.hashcache.hit"} {
@@ -906,6 +907,7 @@ func main() {
 	r.Floor(c1["plan.subquery.cache.hit"]-c0["plan.subquery.cache.hit"]+c1["plan.subquery.hashcache.hit"]-c0["plan.subquery.hashcache.hit"] > 0, "subquery result cache never hit")
 	r.Floor(r.Counter("query.sqlprepare") > 0 && r.Counter("query.api") > 0 && r.Counter("query.text") > 0, "an execution mode was never used")
 	r.Floor(r.Counter("step.tx-commit") > 0 && r.Counter("step.ddl") > 0 && r.Counter("step.call") > 0, "transactions, DDL or procedure calls never exercised")
+	r.Floor(r.Counter("trig.firings") > 0, "no trigger fired more than once in a statement")
 	r.Floor(r.Counter("nonempty-results") > int64(n), "too few non-empty query results")
 	r.Finish()
 }
